@@ -204,14 +204,17 @@ func coqBytes(b []byte) string {
 // coqFile writes a cases file: header imports, one definition `cases` (a list), and the
 // evaluation of `checker cases`, printed as `mism = ...`.
 type coqFile struct {
-	sb      strings.Builder
-	nCases  int
-	name    string
-	checker string
+	sb       strings.Builder
+	nCases   int
+	name     string
+	checker  string
+	imports  []string
+	caseType string
+	cases    []string
 }
 
 func newCoqFile(name string, imports []string, caseType, checker string) *coqFile {
-	f := &coqFile{name: name, checker: checker}
+	f := &coqFile{name: name, checker: checker, imports: imports, caseType: caseType}
 	f.sb.WriteString("(* generated by the verif harness from observations of the real code; do not edit *)\n")
 	f.sb.WriteString("From Coq Require Import List ZArith NArith String.\nImport ListNotations.\n")
 
@@ -231,6 +234,7 @@ func (f *coqFile) add(c string) {
 
 	f.sb.WriteString("  " + c)
 	f.nCases++
+	f.cases = append(f.cases, c)
 }
 
 func (f *coqFile) finish(t *testing.T, dir string) string {
@@ -244,6 +248,38 @@ func (f *coqFile) finish(t *testing.T, dir string) string {
 	}
 
 	return f.name + ".v"
+}
+
+// finishSharded writes the collected cases as one or more files of at most `per` cases (a list literal of many
+// thousands of cases overflows coqc's stack) together with the matching replay files, and registers them in the report.
+func (f *coqFile) finishSharded(t *testing.T, dir string, rep *Report, replays []any, per int) {
+	if len(f.cases) != len(replays) {
+		t.Fatalf("%s: %d cases but %d replays", f.name, len(f.cases), len(replays))
+	}
+
+	if len(f.cases) == 0 {
+		rep.CoqFiles = append(rep.CoqFiles, f.finish(t, dir))
+		rep.CaseFiles = append(rep.CaseFiles, writeJSONL(t, dir, f.name+".jsonl", replays))
+
+		return
+	}
+
+	for i, n := 0, 0; i < len(f.cases); i, n = i+per, n+1 {
+		j := min(i+per, len(f.cases))
+
+		name := f.name
+		if len(f.cases) > per {
+			name = fmt.Sprintf("%s_%d", f.name, n)
+		}
+
+		g := newCoqFile(name, f.imports, f.caseType, f.checker)
+		for _, c := range f.cases[i:j] {
+			g.add(c)
+		}
+
+		rep.CoqFiles = append(rep.CoqFiles, g.finish(t, dir))
+		rep.CaseFiles = append(rep.CaseFiles, writeJSONL(t, dir, name+".jsonl", replays[i:j]))
+	}
 }
 
 // writeJSONL writes replayable cases, one per line (index = line number).
